@@ -382,16 +382,16 @@ item for item, in order, then `Ok(None)` and `finish()` returns the server's res
 end without a result, `Err(EndOfStream)` after the last item and `finish()` returns rc 88.
 Behind EntriesOnly: the entries only, the reference URIs merged into the result (`eoView`). -/
 theorem C10_conn_stream (D : ConnStream.Content) (N : Nat) (evs : List Conn.Ev) (c : Nat) (ch : Conn.Chan) (o : Conn.Op)
-    (entriesOnly : Bool) (h : Handle) (q : Query) (calls : List Call)
+    (p0 : Nat) (entriesOnly : Bool) (h : Handle) (q : Query) (calls : List Call)
     (hc : (Conn.run (Conn.init N) evs).chans[c]? = some ch)
     (_ho : (Conn.run (Conn.init N) evs).ops[ch.opIdx]? = some o)
-    (hcomp : ConnStream.ChanComplete (Conn.run (Conn.init N) evs) ch o)
+    (hcomp : ConnStream.ChanComplete (Conn.run (Conn.init N) evs) ch o p0)
     (hend : (Conn.run (Conn.init N) evs).drv ≠ .running ∨ ∃ f, Conn.Item.done f ∈ ch.items) :
     run (init (streamChain entriesOnly) h [.script (ConnStream.fullScript D (Conn.run (Conn.init N) evs) c)]) (.start q :: calls) =
       Cursor.run (if q.filterOk then .ok else .err .filterParsing)
         (Cursor.ofView
-          (if entriesOnly then eoView (ConnStream.sentView D false (ConnStream.sentFor (Conn.run (Conn.init N) evs) o.id))
-           else ConnStream.sentView D false (ConnStream.sentFor (Conn.run (Conn.init N) evs) o.id)))
+          (if entriesOnly then eoView (ConnStream.sentView D false (ConnStream.sentFrom (Conn.run (Conn.init N) evs) p0 o.id))
+           else ConnStream.sentView D false (ConnStream.sentFrom (Conn.run (Conn.init N) evs) p0 o.id)))
         (.start q :: calls) := by
   have hwf := ConnStream.ChanWF.run N evs
   rw [← ConnStream.sentView_ended D hwf hc hcomp hend]
@@ -403,12 +403,12 @@ frames of `its` one by one (kind by protocolOp, same token), the next returns `O
 returns `fd`'s result.  `Ldap::search` (EntriesOnly, drain, finish): exactly the entries among `its`
 in order, and `fd`'s result with the URIs of the references appended to its referral list. -/
 theorem C10_conn_stream_items (D : ConnStream.Content) (N : Nat) (evs : List Conn.Ev) (c : Nat) (ch : Conn.Chan) (o : Conn.Op)
-    (h : Handle) (q : Query) (hq : q.filterOk = true)
+    (p0 : Nat) (h : Handle) (q : Query) (hq : q.filterOk = true)
     (hc : (Conn.run (Conn.init N) evs).chans[c]? = some ch)
     (_ho : (Conn.run (Conn.init N) evs).ops[ch.opIdx]? = some o)
-    (hcomp : ConnStream.ChanComplete (Conn.run (Conn.init N) evs) ch o)
+    (hcomp : ConnStream.ChanComplete (Conn.run (Conn.init N) evs) ch o p0)
     (its : List Conn.Frame) (fd : Conn.Frame) (rest : List Conn.Frame)
-    (hsent : ConnStream.sentFor (Conn.run (Conn.init N) evs) o.id = its ++ fd :: rest)
+    (hsent : ConnStream.sentFrom (Conn.run (Conn.init N) evs) p0 o.id = its ++ fd :: rest)
     (hi : ∀ f ∈ its, ConnStream.isItemOp f.op = true) (h5 : fd.op = 5) (hg : fd.good = true) :
     run (init [] h [.script (ConnStream.fullScript D (Conn.run (Conn.init N) evs) c)])
         (.start q :: (List.replicate (its.length + 1) .next ++ [.finish])) =
@@ -458,9 +458,9 @@ example : ConnStream.recvTrace 0 (Conn.init 100)
 -- history (the channel is complete, the search is complete), and the outputs are the three frames
 example : (Conn.run (Conn.init 100) bridgeEvs).chans[0]? = some bridgeCh ∧
     (Conn.run (Conn.init 100) bridgeEvs).ops[bridgeCh.opIdx]? = some bridgeOp ∧
-    ConnStream.ChanComplete (Conn.run (Conn.init 100) bridgeEvs) bridgeCh bridgeOp ∧
+    ConnStream.ChanComplete (Conn.run (Conn.init 100) bridgeEvs) bridgeCh bridgeOp 0 ∧
     Conn.Item.done ⟨1, 5, 72, true⟩ ∈ bridgeCh.items ∧
-    ConnStream.sentFor (Conn.run (Conn.init 100) bridgeEvs) bridgeOp.id =
+    ConnStream.sentFrom (Conn.run (Conn.init 100) bridgeEvs) 0 bridgeOp.id =
       [⟨1, 4, 70, false⟩, ⟨1, 19, 71, false⟩] ++ ⟨1, 5, 72, true⟩ :: [] := by decide
 
 example : run (init [] {} [.script (ConnStream.fullScript bridgeD (Conn.run (Conn.init 100) bridgeEvs) 0)])
@@ -469,5 +469,30 @@ example : run (init [] {} [.script (ConnStream.fullScript bridgeD (Conn.run (Con
      .item (.ok none), .item (.ok none), .result ⟨32, [[0x61]], [⟨false, none, 9⟩], .server 72⟩] ∧
     search {} [.script (ConnStream.fullScript bridgeD (Conn.run (Conn.init 100) bridgeEvs) 0)] ⟨1, true⟩ =
       .ok [⟨.entry, 70, none, []⟩] ⟨32, [[0x61], [0x6c]], [⟨false, none, 9⟩], .server 72⟩ := by decide +kernel
+
+-- why `p0`: a frame under ID 1 read BEFORE the search is registered is dropped (it belongs to nobody);
+-- the channel is complete from frame 1 on, not from frame 0 on
+example :
+    let evs : List Conn.Ev := [.srvSend ⟨1, 4, 60, false⟩, .drvResp, .alloc .search, .enqueue 0 none, .drvOp true, .poll 0,
+      .srvSend ⟨1, 4, 70, false⟩, .srvSend ⟨1, 5, 72, true⟩, .drvResp, .drvResp]
+    (Conn.run (Conn.init 100) evs).chans[0]? = some { opIdx := 0, items := [.entry ⟨1, 4, 70, false⟩, .done ⟨1, 5, 72, true⟩] } ∧
+    ConnStream.ChanComplete (Conn.run (Conn.init 100) evs)
+      { opIdx := 0, items := [.entry ⟨1, 4, 70, false⟩, .done ⟨1, 5, 72, true⟩] } bridgeOp 1 ∧
+    ¬ ConnStream.ChanComplete (Conn.run (Conn.init 100) evs)
+      { opIdx := 0, items := [.entry ⟨1, 4, 70, false⟩, .done ⟨1, 5, 72, true⟩] } bridgeOp 0 := by decide
+
+-- the other branch of `hend`: a malformed SearchResultDone under the search's ID ends the driver (F4);
+-- the channel is complete, closed, and the stream yields the entry, then Err(EndOfStream); finish(): rc 88
+example :
+    let evs : List Conn.Ev := [.alloc .search, .enqueue 0 none, .drvOp true, .poll 0,
+      .srvSend ⟨1, 4, 70, false⟩, .srvSend ⟨1, 5, 72, false⟩, .srvSend ⟨1, 4, 73, false⟩, .drvResp, .drvResp, .drvResp]
+    (Conn.run (Conn.init 100) evs).drv = .endedErr ∧
+    (Conn.run (Conn.init 100) evs).chans[0]? = some { opIdx := 0, items := [.entry ⟨1, 4, 70, false⟩] } ∧
+    ConnStream.ChanComplete (Conn.run (Conn.init 100) evs) { opIdx := 0, items := [.entry ⟨1, 4, 70, false⟩] }
+      { bridgeOp with mail := .ack } 0 ∧
+    run (init [] {} [.script (ConnStream.fullScript bridgeD (Conn.run (Conn.init 100) evs) 0)])
+        [.start ⟨1, true⟩, .next, .next, .next, .finish] =
+      [.started .ok, .item (.ok (some ⟨.entry, 70, none, []⟩)), .item (.err .endOfStream), .item (.ok none), .result cancelled] := by
+  decide +kernel
 
 end Ldap3V.Stream
